@@ -7,8 +7,30 @@ PID = "C07"
 NAMEPOOL = ["x", "y", "z", "T0", "T1", "default0", "default1", "ret0", "ret1", "T2", "self_", "fn", "return_", "args0"]
 
 
+def internal_names():
+    """every parameter and local-variable name used inside jaxtyping/_decorator.py: a user's parameter (or **kwargs key) of
+    the same name must not collide with the wrapper's own plumbing"""
+    import ast, keyword
+    tree = ast.parse(open(os.path.join(vf.REPO, "jaxtyping", "_decorator.py")).read())
+    out = set()
+    for n in ast.walk(tree):
+        if isinstance(n, ast.arg):
+            out.add(n.arg)
+        elif isinstance(n, ast.Name) and isinstance(n.ctx, ast.Store):
+            out.add(n.id)
+    return sorted(x for x in out if x.isidentifier() and not keyword.iskeyword(x) and not x.startswith("__") and x not in ("self", "cls", "_"))
+
+
+INTERNAL = internal_names()
+
+
 def gen_sig(rng):
     names = rng.sample(NAMEPOOL, rng.choice([1, 2, 2, 3, 3, 4, 5]))
+    if INTERNAL and rng.random() < .45:
+        for nm in rng.sample(INTERNAL, min(len(INTERNAL), rng.choice([1, 1, 2]))):
+            if nm not in names:
+                names[rng.randrange(len(names))] = nm
+        names = list(dict.fromkeys(names))
     ps = []
     n_po = rng.choice([0, 0, 1, 2]) if len(names) > 1 else 0
     kinds = []
@@ -60,7 +82,8 @@ def make_calls(rng, ps):
             elif p[1] == "ko":
                 kwargs[p[0]] = val(p)
             elif p[1] == "vk":
-                kwargs["extra_kw"] = ["int", 1]
+                extra = [n for n in rng.sample(INTERNAL, min(4, len(INTERNAL))) if n not in [q[0] for q in ps]] if rng.random() < .6 else []
+                kwargs[extra[0] if extra else "extra_kw"] = ["int", 1]
         calls.append({"args": args, "kwargs": kwargs, "welltyped": True, "binds": True})
     # omit defaults
     args, kwargs = [], {}
@@ -82,6 +105,13 @@ def make_calls(rng, ps):
             c["args"][idx] = val(bad, good=False)
         else:
             c["kwargs"][bad[0]] = val(bad, good=False)
+        c["welltyped"] = False
+        calls.append(c)
+    # ill-typed: None for an annotated parameter that has a (non-None) default
+    opt = next((p for p in ps if p[3] in ("arr", "int") and p[1] in ("pk", "ko") and p[2]), None)
+    if opt is not None:
+        c = json.loads(json.dumps(calls[1]))
+        c["kwargs"][opt[0]] = ["none"]
         c["welltyped"] = False
         calls.append(c)
     # non-binding
@@ -128,7 +158,8 @@ def main():
                     seen = seen or p[2]
             if desc == "property":
                 ps = ps[:1]
-        cases.append({"params": ps, "fname": fname, "callable": kind, "descriptor": desc, "checker": R.rng.choice(["typeguard", "beartype"]), "ret_annot": kind == "def" and R.rng.random() < .5 and desc == "function", "calls": make_calls(R.rng, ps)})
+        cases.append({"params": ps, "fname": fname, "callable": kind, "descriptor": desc, "checker": R.rng.choice(["typeguard", "beartype"]), "ret_annot": kind == "def" and R.rng.random() < .5 and desc == "function", "calls": make_calls(R.rng, ps),
+                      "twin": R.rng.random() < .4})
     nw = 8
     chunks = [cases[i::nw] for i in range(nw)]
     from concurrent.futures import ThreadPoolExecutor
@@ -201,9 +232,9 @@ def main():
         R.violation("proof", "proof obligations of props/C07.v no longer check: " + str(R.broken_proof)[-800:],
                     {"theorem_file": "coq/props/C07.v", "log": R.broken_proof}, no_input=not any(v["kind"] == "property" for v in R.violations))
     R.coverage.update(evaluations=ncalls, distinct_nontrivial=len(nontriv), samples=samples, signatures=len(cases),
-                      rule="%d generated signatures (positional-only / positional-or-keyword / *args / keyword-only / **kwargs, defaults, names colliding with the wrapper's generated names T<k>, default<k>, ret<k> and with the function's own name) x callable kind (def, lambda, async def, generator) x descriptor kind x typeguard/beartype; "
+                      rule="%d generated signatures (positional-only / positional-or-keyword / *args / keyword-only / **kwargs, defaults, names colliding with the wrapper's generated names T<k>, default<k>, ret<k>, with the function's own name, and with every parameter/local name used inside _decorator.py (%d names read from the source, also as **kwargs keys); 40%% of the functions are decorated after a same-named twin whose defaults are None) x callable kind (def, lambda, async def, generator) x descriptor kind x typeguard/beartype; "
                            "per signature: positional and keyword binding calls, a call omitting defaults, an ill-typed call, a non-binding call. Oracle = the undecorated twin compiled from the same source: result object / exception class, number of body runs, ids of the received argument objects, __name__/__qualname__/__doc__/__module__/signature/iscoroutinefunction, descriptor type. "
-                           "non-trivial = distinct well-typed binding call" % len(cases))
+                           "non-trivial = distinct well-typed binding call" % (len(cases), len(INTERNAL)))
     R.assumptions += ["object identity and functools.wraps are CPython's: observed, not proved"]
     sys.exit(R.finish())
 
